@@ -138,6 +138,41 @@ func runC08(c *core.Ctx) core.Meta {
 			}
 		}
 	}
+	// the enumeration cursor is advanced only by NextWG (which applies the work-group filter) and reset by SetKernel:
+	// any other writer (e.g. an arithmetic Skip) would count positions instead of accepted work-groups
+	for _, fn := range c.SrcFuncs(kernelsPkg) {
+		for _, b := range fn.Blocks {
+			for _, in := range b.Instrs {
+				f := writtenField(in)
+				if f == nil || (f.Name() != "xid" && f.Name() != "yid" && f.Name() != "zid") || core.ShortFieldID(f) != "gridBuilderImpl."+f.Name() {
+					continue
+				}
+				st2.Instances++
+				name := core.FuncName(fn)
+				ok := name == "gridBuilderImpl.NextWG" || name == "gridBuilderImpl.SetKernel"
+				st2.Ob(ok)
+				if !ok {
+					c.ReportAt("R08.2", fn, in.Pos(), "cursor-writer:"+f.Name(), "the enumeration cursor "+f.Name()+" is written in "+name+": only NextWG (which applies the work-group filter) may advance it, otherwise skipped positions are counted instead of accepted work-groups and the per-CU partitions of a filtered (multi-GPU) launch overlap")
+				}
+			}
+		}
+	}
+	// Skip(n) = n calls of NextWG
+	if fn := c.MustFunc("R08.2", kernelsPkg, "gridBuilderImpl.Skip"); fn != nil {
+		st2.Instances++
+		calls := false
+		for _, b := range fn.Blocks {
+			for _, in := range b.Instrs {
+				if callsFunc(in, fn.Pkg, "gridBuilderImpl.NextWG") {
+					calls = true
+				}
+			}
+		}
+		st2.Ob(calls)
+		if !calls {
+			c.ReportAt("R08.2", fn, fn.Pos(), "skip-without-nextwg", "Skip no longer advances by calling NextWG: it does not skip accepted work-groups")
+		}
+	}
 	// spawnWorkItems loops bounded by CurrSize
 	if fd := findFuncDecl(c.Pkg(kernelsPkg), "gridBuilderImpl.spawnWorkItems"); fd != nil {
 		var conds []string
